@@ -2,9 +2,9 @@
 # usage: collect_r4.sh Cxx   — copies round-4 seeds of a property into /verif/seeded as Cxx-m7, Cxx-m8 and runs its check on each (scratch worktree)
 p=$1
 for k in 1 2; do
-  src=/tmp/wt/r4_$p/_seed/m$k
+  src=/tmp/wt/${R:-r4}_$p/_seed/m$k
   [ -f $src/patch.diff ] || { echo "$p m$k: no patch"; continue; }
-  n=$((k+6)); dst=/verif/seeded/$p-m$n
+  n=$((k+${OFF:-6})); dst=/verif/seeded/$p-m$n
   mkdir -p $dst; cp $src/patch.diff $dst/; cp $src/*_test.go $dst/ 2>/dev/null; cp $src/*.go $dst/ 2>/dev/null; cp $src/README.md $dst/ 2>/dev/null
   [ -f $dst/demo_test.go ] || { f=$(ls $dst/*_test.go 2>/dev/null | head -1); [ -n "$f" ] && cp "$f" $dst/demo_test.go; }
   echo "== $p-m$n: $(head -1 $dst/README.md | cut -c1-150)"
